@@ -135,7 +135,7 @@ def check_property(prop, tier, seed=0, replay_path=None, only=None):
             outcome, text = native_replay(c, vals, r.workdir)
         doc = dict(property=prop, contract=c.ident(), function=c.fn.pretty, where=c.fn.where(), config="%s/%s" % (c.unit.std, c.unit.asserts), mode=c.mode,
                    failed_obligations=[dict(name=p["name"], clause=p.get("clause"), description=p["desc"], expr=p.get("expr")) for p in fails],
-                   backend=r.backend, inputs={k: v.get("data") for k, v in vals.items()}, inputs_binary={k: v.get("binary") for k, v in vals.items() if v.get("binary")},
+                   backend=r.backend, witness=vals, inputs={k: v.get("data") for k, v in vals.items()}, inputs_binary={k: v.get("binary") for k, v in vals.items() if v.get("binary")},
                    native_replay=dict(outcome=outcome, output=text), verifier_output=[dict(name=p["name"], status=p["status"], description=p["desc"]) for p in r.props if p["status"] != "SUCCESS" and not p.get("canary")],
                    replay_source=os.path.join(r.workdir, "replay.c"), tier=tier)
         # keep replay program next to the replay file
